@@ -215,8 +215,8 @@ def compute_shapley_add(
     num_classes: int = 2,
     null_scores: Optional[NDArray] = None,
 ) -> NDArray:
-    if max_cardinality is None or max_cardinality >= distances.shape[0]:
-        max_cardinality = distances.shape[0] - 1
+    if max_cardinality is None or max_cardinality >= len(units):
+        max_cardinality = len(units) - 1
     n_units, n_tuples, n_test = len(units), distances.shape[0], distances.shape[1]
     all_importances = np.zeros((n_units), dtype=float)
     null_scores = null_scores if null_scores is not None else np.zeros((1, n_test))
